@@ -157,7 +157,7 @@ def produceLines (c : CryptoOps) (key : Bytes) (st : Calc) : List LItem → List
     let (st', line) := appendIntegrity c st it.formatted
     line :: produceLines c key (if it.resetAfter then Calc.new c key else st') r
 
-/-! #### the file reader: `bufio.Scanner` with `ScanLines` -/
+/-! #### the file reader: line splitting as a specification (`bufio.ScanLines`) -/
 
 def maxLine : Nat := 65536
 
@@ -172,13 +172,72 @@ def rawLines : Bytes → Bytes → List Bytes
   | 10 :: r, acc => acc.reverse :: rawLines r []
   | x :: r, acc => rawLines r (x :: acc)
 
-/-- `processLogFile`. With a `bufio.Scanner` the scan stops (its error is not looked at) at the first
-line of `maxLine` bytes or more – that line and everything after it is never delivered; with a
-`bufio.Reader` every line is delivered. Which one the code uses is a regenerated fact. -/
-def scanLinesWith (reader : String) (file : Bytes) : List Bytes :=
-  let ls := rawLines file []
-  ((if reader = "scanner" then ls.takeWhile fun l => l.length < maxLine else ls)).map dropCR
+/-! #### `processLogFile` with a `bufio.Reader` (the code after the repair of the 64 KiB defect)
 
-def scanLines (file : Bytes) : List Bytes := scanLinesWith lineReader file
+```go
+for {
+    line, readErr := reader.ReadString('\n')                     // "read"
+    if readErr != nil && readErr != io.EOF { return readErr }     // "return-err"
+    if len(line) > 0 { …TrimSuffix…; output <- entry }            // "deliver"
+    if readErr == io.EOF { return nil }                           // "return-eof"
+}
+```
+`ReadString` returns the bytes read so far TOGETHER with `io.EOF` when the file does not end in `\n`. The
+ORDER of the statements of the loop is a regenerated fact (`readerLoop`) that the model interprets: a
+`return-eof` (or `return-any-err`) standing before `deliver` drops the unterminated last line. -/
+
+/-- the statements after `read` of one iteration, for the chunk `ReadString` returned and whether it came
+with `io.EOF`: the chunks delivered, and whether the function returns. A file in memory has no read error
+other than `io.EOF`, so `return-err` never fires. -/
+def loopBody : List String → Bytes → Bool → List Bytes × Bool
+  | [], _, _ => ([], false)
+  | s :: r, chunk, eof =>
+    if (s = "return-eof" ∨ s = "return-any-err") ∧ eof = true then ([], true)
+    else
+      let (d, stop) := loopBody r chunk eof
+      if s = "deliver" ∧ chunk.isEmpty = false then (chunk :: d, stop) else (d, stop)
+
+/-- the loop: `acc` holds (reversed) what `ReadString` has consumed of the current line. The result is the
+list of RAW chunks (line terminator included) handed to the delivering branch. (`factgen` refuses a loop
+without an `io.EOF` exit – Go would spin there; the model ends at the end of the file in any case.) -/
+def readChunks (body : List String) : Bytes → Bytes → List Bytes
+  | [], acc => (loopBody body acc.reverse true).1
+  | x :: r, acc =>
+    if x = 10 then
+      let (d, stop) := loopBody body (10 :: acc).reverse false
+      if stop then d else d ++ readChunks body r []
+    else readChunks body r (x :: acc)
+
+/-- `strings.TrimSuffix` -/
+def trimSuffix (suf s : Bytes) : Bytes := if hasSuffix suf s then s.take (s.length - suf.length) else s
+
+/-- the `TrimSuffix` calls of the delivering branch, in order -/
+def trimLine (trims : List String) (chunk : Bytes) : Bytes := trims.foldl (fun l t => trimSuffix (strB t) l) chunk
+
+/-- `processLogFile`: the lines handed to the verifier. With a `bufio.Scanner` the scan stops (its error is not
+looked at) at the first line of `maxLine` bytes or more – that line and everything after it is never
+delivered; with a `bufio.Reader` the loop above runs. Which one the code uses, the order of the loop's
+statements and the trimmed suffixes are regenerated facts. -/
+def scanLinesWith (reader : String) (body trims : List String) (file : Bytes) : List Bytes :=
+  if reader = "scanner" then ((rawLines file []).takeWhile fun l => l.length < maxLine).map dropCR
+  else (readChunks body file []).map (trimLine trims)
+
+def scanLines (file : Bytes) : List Bytes := scanLinesWith lineReader readerLoop readerTrims file
+
+/-- what `acra-log-verifier` computes from the BYTES of a log file: `ReadLogEntries` → `ParseEntry` on every
+delivered line → `VerifyIntegrityCheck` -/
+def verifyFile (c : CryptoOps) (key : Bytes) (parse : Bytes → Line) (file : Bytes) : Verdict :=
+  verify c key ((scanLines file).map parse)
+
+/-- several files in the order given on the command line: the entries of all files go through ONE channel
+into ONE verifier run (line numbers restart per file; the model numbers the lines consecutively) -/
+def verifyFiles (c : CryptoOps) (key : Bytes) (parse : Bytes → Line) (files : List Bytes) : Verdict :=
+  verify c key ((files.flatMap scanLines).map parse)
+
+/-- a log file made of the given lines: every line followed by `\n` (`term = true`, what the logger writes),
+or the same without the final `\n` (an editor / a cut that leaves the last line unterminated) -/
+def fileOf (ls : List Bytes) (term : Bool) : Bytes :=
+  let f := ls.flatMap fun l => l ++ [10]
+  if term then f else f.dropLast
 
 end AcraModel.AuditLog
